@@ -1,5 +1,10 @@
-"""C20 — unsigned byte fields (spacepackets/util.py).  Streams, implementation adapter, oracle."""
-import itertools
+"""C20 — unsigned byte fields (spacepackets/util.py).  Streams, implementation adapter, oracle.
+Op 299 = exploration outside the model (argument TYPES of the value setter): a[0] = [value, width, construction path],
+a[1] = [kind of bytes-like object (BYTES_LIKE), octets...].  Statement evaluated by the adapter: assigning an object that
+is bytes-like but neither bytes nor bytearray is either refused / ignored (every view as before) or has exactly the
+effect of assigning bytes(obj) on a twin field, and every view stays as it is when the caller overwrites its buffer
+afterwards and when the (overwritten) object is assigned a second time the same alternative holds again."""
+import array, itertools
 from spacepackets import util as U
 from harness import core
 
@@ -22,6 +27,10 @@ EXPLORED_ONLY = [
     "ByteFieldU8/U16/U32/U64.from_bytes inherited from the base class raises TypeError (cls(val, len) against a "
     "one-argument __init__); not an entry point the property names",
     "IntByteConversion.to_unsigned(n, negative) answers struct.error and to_signed refuses -2^(8n-1): outside the helpers' accepted range",
+    "stream explored_bytes_like_assignment (op 299): value = <memoryview of a writable / read-only buffer, a slice or a strided "
+    "view of a larger buffer, array.array('B'), a bytes subclass, a bytearray subclass> for every width and construction path: "
+    "refused / ignored with all views unchanged, or exactly the effect of assigning bytes(obj); the views do not follow the "
+    "caller's buffer afterwards.  Argument types other than int / bytes / bytearray are outside the model",
 ]
 
 WIDTHS = (0, 1, 2, 4, 8)
@@ -47,6 +56,8 @@ def _mk(l):
 
 
 def impl(op, a):
+    if op == 299:
+        return _explore_bytes_like(a)
     if op == 200:
         return _obs(_mk(a[0]))
     if op == 201:
@@ -199,6 +210,87 @@ def _obs_any(f):
         if w in (1, 2, 4, 8):
             rt = rt and U.ByteFieldGenerator.from_bytes(w, f.as_bytes) == f
     return o + [[int(eq), int(hk), int(eqb), int(rt)]]
+
+
+
+# ---------------------------------------------------------------- exploration: bytes-like arguments of the value setter
+class _Frame(bytes):
+    """a downstream bytes subclass (adds nothing)"""
+
+
+class _Buffer(bytearray):
+    """a downstream bytearray subclass (adds nothing)"""
+
+
+BYTES_LIKE = ["memoryview of a bytearray", "memoryview of bytes (read-only)", "array.array('B')", "bytes subclass",
+              "bytearray subclass", "memoryview slice of a larger receive buffer", "strided memoryview",
+              "memoryview of an array.array('B')"]
+
+
+def _bytes_like(kind, octets):
+    """(object to assign, the writable buffer behind it or None)"""
+    if kind == 0:
+        buf = bytearray(octets)
+        return memoryview(buf), buf
+    if kind == 1:
+        return memoryview(bytes(octets)), None
+    if kind == 2:
+        buf = array.array("B", octets)
+        return buf, buf
+    if kind == 3:
+        return _Frame(octets), None
+    if kind == 4:
+        buf = _Buffer(octets)
+        return buf, buf
+    if kind == 5:
+        buf = bytearray([0xEE] * 3 + list(octets) + [0xDD] * 2)
+        return memoryview(buf)[3:3 + len(octets)], buf
+    if kind == 6:
+        buf = bytearray(2 * len(octets))
+        buf[::2] = bytearray(octets)
+        return memoryview(buf)[::2], buf
+    if kind == 7:
+        buf = array.array("B", octets)
+        return memoryview(buf), buf
+    raise RuntimeError("bad kind")
+
+
+def _views(f):
+    try:
+        return _obs_any(f) + [[int(type(f.as_bytes) is bytes), int(type(f.value) is int)]]
+    except RuntimeError:
+        raise
+    except Exception as e:      # a field whose views cannot even be read any more: equal to no healthy state
+        return [[-1], [-1, core.classify_exception(e)]]
+
+
+def _explore_bytes_like(a):
+    kind, octets = a[1][0], a[1][1:]
+    f, twin = _mk_any(a[0]), _mk_any(a[0])
+    obj, buf = _bytes_like(kind, octets)
+    for rnd in (0, 1):
+        before = _views(f)
+        try:
+            twin.value = bytes(obj)
+            t_ok = True
+        except ValueError:
+            t_ok = False
+        try:
+            f.value = obj
+            refused = False
+        except Exception:
+            refused = True
+        after = _views(f)
+        if refused and after != before:
+            return [[0, 1, rnd, kind]]
+        if not refused and after != before and not (t_ok and after == _views(twin)):
+            return [[0, 2, rnd, kind] + after[1][:8]]
+        if buf is not None:          # the caller re-uses its buffer
+            for i in range(len(buf)):
+                buf[i] ^= 0xFF
+            if _views(f) != after:
+                return [[0, 3, rnd, kind] + _views(f)[1][:8]]
+    return [[1]]
 
 
 # ---------------------------------------------------------------- independent reference
@@ -442,6 +534,23 @@ def streams(tier, rng):
                   (202, [[0, w, rng.choice([0, 2])], b]),
                   (217, [[_good_val(rng, w), w, 0], [1 + n % 2] + b, [5], [3, WIDTHS[(n // 5) % 5]], [1 + (n // 2) % 2] + b])]
     yield "exh_buffer_sizes", "exact", cases
+    # 6f. exploration only: bytes-like objects that are neither bytes nor bytearray assigned to `value`
+    cases = []
+    for w in WIDTHS:
+        vals = [0] if w == 0 else [0, 1, 256 ** w - 1, 0x8040201008040201 % 256 ** w]
+        for kind in range(len(BYTES_LIKE)):
+            for path in range(6):
+                for extra in (0, 1, 9) + ((600,) if path == 0 else ()):
+                    nv = _good_val(rng, w)
+                    cases.append((299, [[rng.choice(vals), w, path], [kind] + be(w, nv) + [rng.choice([0, 0x80, 0xFF, rng.randrange(256)]) for _ in range(extra)]]))
+                for n in sorted({0, max(w - 1, 0)}):
+                    if n < w:
+                        cases.append((299, [[rng.choice(vals), w, path], [kind] + [rng.randrange(256) for _ in range(n)]]))
+    for _ in range(6000 if big else 800):
+        w = rng.choice(WIDTHS)
+        n = rng.choice([w, w, w + 1, w + rng.randrange(0, 40), rng.randrange(0, max(w, 1))])
+        cases.append((299, [[_good_val(rng, w), w, rng.randrange(6)], [rng.randrange(len(BYTES_LIKE))] + [rng.randrange(256) for _ in range(n)]]))
+    yield "explored_bytes_like_assignment", "exact", cases
     # 7. conversion helpers: signed / unsigned boundaries for every width
     cases = []
     for n in (1, 2, 4, 8):
@@ -599,6 +708,19 @@ def oracle(case, ires, sres):
         return None
     if op == 217:
         return _oracle_live(a, ires)
+    if op == 299:
+        if err:
+            return ("C20/UnsignedByteField.value/bytes-like-argument", "exploration could not be driven: %s" % (ires,))
+        if ires[1] == [1]:
+            return None
+        d = ires[1]
+        what = {1: "refused-but-changed", 2: "bytes-like-differs-from-bytes", 3: "keeps-view-of-caller-buffer"}.get(d[1], "bytes-like-argument")
+        return ("C20/UnsignedByteField.value/" + what,
+                "field %s (value, width, construction path), value = <%s of %s>%s: %s" % (
+                    a[0], BYTES_LIKE[a[1][0]], a[1][1:12], " (second assignment, after the caller overwrote its buffer)" if d[2] else "",
+                    {1: "the assignment raised, yet the views changed",
+                     2: "accepted with an effect that is neither 'ignored' nor that of assigning bytes(obj); octets now %s" % (d[4:],),
+                     3: "the views changed when the caller overwrote its buffer afterwards; octets now %s" % (d[4:],)}.get(d[1], str(d))))
     if op == 212:
         n, v = a[0]
         if n not in WIDTHS:
